@@ -573,3 +573,10 @@ def r11_9(ctx):
     from .c09 import r09_3
 
     r09_3(ctx)
+
+
+@rule("R11.10", "C11", "memory and jump templates name their operands through il_read (the declared variable or the inlined term), never through a variable name of their own making", min_instances=10)
+def r11_10(ctx):
+    from .c07 import r07_6
+
+    r07_6(ctx)
